@@ -247,9 +247,11 @@ def higher_order_ridge(ctx, rep, rule: str) -> None:
             return abs(interp.ev(call.args[0]))
         if d == "torch.eye":
             return 1.0
-        if d == "torch.add":
-            al = A.keyword(call, "alpha")
-            return interp.ev(call.args[0]) + (interp.ev(al) if al is not None else 1.0) * interp.ev(call.args[1])
+        from ..guards import scalar_tensor_ops
+
+        r_ = scalar_tensor_ops(interp, call, d)
+        if r_ is not MISSING:
+            return r_
         if d in ("math.isfinite", "torch.isfinite"):
             return True
         if isinstance(call.func, ast.Name) and call.func.id == "isfinite":
